@@ -891,6 +891,12 @@ pub fn run(seed: u64, tier: &str, out: &Path, _extra: &[(String, String)]) -> st
         let ctx_on = rng.chance(3, 4);
         let nontrivial = matches!(l.outcome, Outcome::Parsed(_));
         let text = d.sequential(&mut run, &init, ctx_on, std::slice::from_ref(&l));
+        if run.samples.len() < 4 && (kind == 0 || kind == 3) && l.text.len() < 160 && rng.chance(1, 40) {
+            // human-readable sample for the evidence file (re-run on a scratch configuration)
+            let scratch = build(&init);
+            let r = catch(AssertUnwindSafe(|| dispatch(&scratch, None, None, &l.text).map(|r| r.to_json())));
+            run.samples.push(format!("line {:?} on {} => stdin answers {:?}, snapshot then {}", l.text, coq_init(&init), r, coq_snap(&scratch.snapshot())));
+        }
         run.push(match kind { 0 => "line:request", 1 => "line:any_json", 2 => "line:deep", 3 => "line:garbage", _ => "line:blank" }, nontrivial, text);
     }
 
